@@ -14,8 +14,9 @@ import (
 )
 
 type cvar struct {
-	v Val
-	t types.Type
+	v      Val
+	t      types.Type
+	origin string // "Struct.field" when the value was read directly from that field
 }
 
 type cenv struct {
@@ -99,7 +100,7 @@ func sigNames(f *Frame, vars map[string]cvar) {
 				if c, ok := f.pcells[i]; ok {
 					v = &PtrVal{Nilc: tFalse, Base: PLocal, Cell: c, BTyp: c.Typ, Typ: c.Typ}
 				}
-				vars[p.Name()] = cvar{v, p.Type()}
+				vars[p.Name()] = cvar{v: v, t: p.Type()}
 			}
 		}
 	}
@@ -129,7 +130,7 @@ func (ce *cenv) lookupLocal(name string) (cvar, bool) {
 	if best == nil {
 		return cvar{}, false
 	}
-	return cvar{ce.st.cells[best], best.Typ}, true
+	return cvar{v: ce.st.cells[best], t: best.Typ}, true
 }
 
 func (ce *cenv) ident(name string) cvar {
@@ -148,7 +149,7 @@ func (ce *cenv) ident(name string) cvar {
 	// ghost names
 	switch name {
 	case "cb_n":
-		return cvar{ce.st.H("ghost:cb_n", sortInt), mathInt}
+		return cvar{v: ce.st.H("ghost:cb_n", sortInt), t: mathInt}
 	}
 	if c, ok := x.env.con.Consts[name]; ok {
 		return ce.eval(c)
@@ -158,17 +159,17 @@ func (ce *cenv) ident(name string) cvar {
 	case *types.Const:
 		if o.Val().Kind() == constant.Int {
 			v, _ := new(big.Int).SetString(o.Val().ExactString(), 10)
-			return cvar{mkBig(v), mathInt}
+			return cvar{v: mkBig(v), t: mathInt}
 		}
 		if o.Val().Kind() == constant.Bool {
-			return cvar{mkBool(constant.BoolVal(o.Val())), types.Typ[types.Bool]}
+			return cvar{v: mkBool(constant.BoolVal(o.Val())), t: types.Typ[types.Bool]}
 		}
 	case *types.Var:
 		if g, ok := x.env.spkg.Members[name].(*ssa.Global); ok {
 			p := &PtrVal{Nilc: tFalse, Base: PGlobal, Glob: g, BTyp: o.Type(), Typ: o.Type()}
 			tm, t := x.loadTerm(ce.st, p)
 			ce.typed(t, tm)
-			return cvar{x.fromTerm(tm, t), t}
+			return cvar{v: x.fromTerm(tm, t), t: t}
 		}
 	}
 	ce.fail("unknown identifier %q", name)
@@ -212,32 +213,32 @@ func (ce *cenv) eval(e *CExpr) cvar {
 	x := ce.x
 	switch e.Kind {
 	case "int":
-		return cvar{mkBig(e.Val), mathInt}
+		return cvar{v: mkBig(e.Val), t: mathInt}
 	case "bool":
-		return cvar{mkBool(e.Name == "true"), types.Typ[types.Bool]}
+		return cvar{v: mkBool(e.Name == "true"), t: types.Typ[types.Bool]}
 	case "nil":
-		return cvar{nilPtr(nil), types.Typ[types.UntypedNil]}
+		return cvar{v: nilPtr(nil), t: types.Typ[types.UntypedNil]}
 	case "id":
 		return ce.ident(e.Name)
 	case "un":
 		switch e.Op {
 		case "!":
-			return cvar{mkNot(ce.evalBool(e.X)), types.Typ[types.Bool]}
+			return cvar{v: mkNot(ce.evalBool(e.X)), t: types.Typ[types.Bool]}
 		case "-":
-			return cvar{mkNeg(ce.evalInt(e.X)), mathInt}
+			return cvar{v: mkNeg(ce.evalInt(e.X)), t: mathInt}
 		case "&":
 			p := ce.addrOf(e.X)
 			if p == nil {
 				ce.fail("cannot take address of %s", e.X)
 			}
-			return cvar{p, types.NewPointer(p.Typ)}
+			return cvar{v: p, t: types.NewPointer(p.Typ)}
 		}
 	case "bin":
 		return ce.evalBin(e)
 	case "cond":
 		c := ce.evalBool(e.X)
 		a, b := ce.eval(e.Y), ce.eval(e.Z)
-		return cvar{x.mergeVal(c, a.v, b.v), a.t}
+		return cvar{v: x.mergeVal(c, a.v, b.v), t: a.t}
 	case "field":
 		return ce.evalField(e)
 	case "index":
@@ -253,7 +254,7 @@ func (ce *cenv) eval(e *CExpr) cvar {
 		if e.Z != nil {
 			hi = ce.evalInt(e.Z)
 		}
-		return cvar{mkSlice(sliceRef(s), mkAdd(sliceOff(s), lo), mkSub(hi, lo), mkSub(sliceCap(s), lo)), b.t}
+		return cvar{v: mkSlice(sliceRef(s), mkAdd(sliceOff(s), lo), mkSub(hi, lo), mkSub(sliceCap(s), lo)), t: b.t}
 	case "quant":
 		return ce.evalQuant(e)
 	case "call":
@@ -291,7 +292,7 @@ func (ce *cenv) evalQuant(e *CExpr) cvar {
 			ce.fail("unsupported quantifier type %s", d.Type)
 		}
 		bound = append(bound, b)
-		vars[d.Name] = cvar{b, mathInt}
+		vars[d.Name] = cvar{v: b, t: mathInt}
 	}
 	nb := map[string]bool{}
 	for k := range ce.bound {
@@ -336,9 +337,9 @@ func (ce *cenv) evalQuant(e *CExpr) cvar {
 	}
 	pre := mkAnd(ranges...)
 	if e.Op == "forall" {
-		return cvar{mkForall(bound, mkImp(pre, body)), types.Typ[types.Bool]}
+		return cvar{v: mkForall(bound, mkImp(pre, body)), t: types.Typ[types.Bool]}
 	}
-	return cvar{mkExists(bound, mkAnd(pre, body)), types.Typ[types.Bool]}
+	return cvar{v: mkExists(bound, mkAnd(pre, body)), t: types.Typ[types.Bool]}
 }
 
 func (ce *cenv) valEq(a, b cvar, ea, eb *CExpr) *Term {
@@ -392,55 +393,55 @@ func (ce *cenv) evalBin(e *CExpr) cvar {
 	boolT := types.Typ[types.Bool]
 	switch e.Op {
 	case "&&":
-		return cvar{mkAnd(ce.evalBool(e.X), ce.evalBool(e.Y)), boolT}
+		return cvar{v: mkAnd(ce.evalBool(e.X), ce.evalBool(e.Y)), t: boolT}
 	case "||":
-		return cvar{mkOr(ce.evalBool(e.X), ce.evalBool(e.Y)), boolT}
+		return cvar{v: mkOr(ce.evalBool(e.X), ce.evalBool(e.Y)), t: boolT}
 	case "==>":
-		return cvar{mkImp(ce.evalBool(e.X), ce.evalBool(e.Y)), boolT}
+		return cvar{v: mkImp(ce.evalBool(e.X), ce.evalBool(e.Y)), t: boolT}
 	case "<==>":
-		return cvar{mkEq(ce.evalBool(e.X), ce.evalBool(e.Y)), boolT}
+		return cvar{v: mkEq(ce.evalBool(e.X), ce.evalBool(e.Y)), t: boolT}
 	case "==", "!=":
 		a, b := ce.eval(e.X), ce.eval(e.Y)
 		eq := ce.valEq(a, b, e.X, e.Y)
 		if e.Op == "!=" {
 			eq = mkNot(eq)
 		}
-		return cvar{eq, boolT}
+		return cvar{v: eq, t: boolT}
 	}
 	a, b := ce.evalInt(e.X), ce.evalInt(e.Y)
 	switch e.Op {
 	case "<":
-		return cvar{mkLt(a, b), boolT}
+		return cvar{v: mkLt(a, b), t: boolT}
 	case "<=":
-		return cvar{mkLe(a, b), boolT}
+		return cvar{v: mkLe(a, b), t: boolT}
 	case ">":
-		return cvar{mkLt(b, a), boolT}
+		return cvar{v: mkLt(b, a), t: boolT}
 	case ">=":
-		return cvar{mkLe(b, a), boolT}
+		return cvar{v: mkLe(b, a), t: boolT}
 	case "+":
-		return cvar{mkAdd(a, b), mathInt}
+		return cvar{v: mkAdd(a, b), t: mathInt}
 	case "-":
-		return cvar{mkSub(a, b), mathInt}
+		return cvar{v: mkSub(a, b), t: mathInt}
 	case "*":
-		return cvar{mkMul(a, b), mathInt}
+		return cvar{v: mkMul(a, b), t: mathInt}
 	case "/":
-		return cvar{mkDiv(a, b), mathInt}
+		return cvar{v: mkDiv(a, b), t: mathInt}
 	case "%":
 		ce.modFacts(a, b)
-		return cvar{mkMod(a, b), mathInt}
+		return cvar{v: mkMod(a, b), t: mathInt}
 	case "<<":
 		if !isInt(b) {
 			ce.fail("shift by non-constant")
 		}
-		return cvar{mkMul(a, mkBig(pow2(int(b.Val.Int64())))), mathInt}
+		return cvar{v: mkMul(a, mkBig(pow2(int(b.Val.Int64())))), t: mathInt}
 	case ">>":
 		if !isInt(b) {
 			ce.fail("shift by non-constant")
 		}
-		return cvar{mkDiv(a, mkBig(pow2(int(b.Val.Int64())))), mathInt}
+		return cvar{v: mkDiv(a, mkBig(pow2(int(b.Val.Int64())))), t: mathInt}
 	case "&", "|", "^", "&^":
 		op := map[string]token.Token{"&": token.AND, "|": token.OR, "^": token.XOR, "&^": token.AND_NOT}[e.Op]
-		return cvar{x.bitop(ce.st, op, a, b, types.Typ[types.Uint64]), mathInt}
+		return cvar{v: x.bitop(ce.st, op, a, b, types.Typ[types.Uint64]), t: mathInt}
 	}
 	ce.fail("operator %s", e.Op)
 	return cvar{}
@@ -457,14 +458,19 @@ func (ce *cenv) loadPtr(p *PtrVal) cvar {
 		if !ok {
 			ce.fail("dead local %s in contract", p.Cell.Name)
 		}
-		return cvar{v, p.Cell.Typ}
+		return cvar{v: v, t: p.Cell.Typ}
 	}
 	if p.Base == PNil {
-		ce.fail("nil dereference in contract")
+		// dereference of a literal nil (in a guarded position): an arbitrary value
+		if p.Typ == nil {
+			ce.fail("nil dereference in contract")
+		}
+		tm := fresh("nilderef", x.env.te.sortOf(p.Typ))
+		return cvar{v: x.fromTerm(tm, p.Typ), t: p.Typ}
 	}
 	tm, t := x.loadTerm(ce.st, p)
 	ce.typed(t, tm)
-	return cvar{x.fromTerm(tm, t), t}
+	return cvar{v: x.fromTerm(tm, t), t: t}
 }
 
 func (ce *cenv) evalField(e *CExpr) cvar {
@@ -477,7 +483,7 @@ func (ce *cenv) evalField(e *CExpr) cvar {
 			if tup, ok := b.t.(*types.Tuple); ok {
 				t = tup.At(k).Type()
 			}
-			return cvar{tv.Elems[k], t}
+			return cvar{v: tv.Elems[k], t: t}
 		}
 	}
 	if b.t == nil {
@@ -493,7 +499,9 @@ func (ce *cenv) evalField(e *CExpr) cvar {
 				fp.Path = append(append([]PathStep{}, p.Path...), PathStep{Field: i})
 				fp.Typ = sty.Field(i).Type()
 				fp.Nilc = tFalse
-				return ce.loadPtr(&fp)
+				r := ce.loadPtr(&fp)
+				r.origin = x.env.te.namedKey(pt) + "." + e.Name
+				return r
 			}
 		}
 		if g := ce.ghostField(pt, e.Name, p); g != nil {
@@ -506,7 +514,7 @@ func (ce *cenv) evalField(e *CExpr) cvar {
 		for i := 0; i < sty.NumFields(); i++ {
 			if sty.Field(i).Name() == e.Name {
 				ft := sty.Field(i).Type()
-				return cvar{x.fromTerm(mkSel(tm, i), ft), ft}
+				return cvar{v: x.fromTerm(mkSel(tm, i), ft), t: ft}
 			}
 		}
 	}
@@ -522,7 +530,7 @@ func (ce *cenv) ghostField(st types.Type, name string, p *PtrVal) *cvar {
 		if g.Struct == key && g.Field == name {
 			so, gt := x.ghostSort(g.Type)
 			h := ce.st.H("ghost:"+key+"."+name, arraySort(sortInt, so))
-			return &cvar{mkSelect(h, p.Ref), gt}
+			return &cvar{v: mkSelect(h, p.Ref), t: gt}
 		}
 	}
 	return nil
@@ -558,20 +566,20 @@ func (ce *cenv) evalIndex(e *CExpr) cvar {
 		i := ce.evalInt(e.Y)
 		tm := x.sliceAt(ce.st, s, u.Elem(), i)
 		ce.typed(u.Elem(), tm)
-		return cvar{x.fromTerm(tm, u.Elem()), u.Elem()}
+		return cvar{v: x.fromTerm(tm, u.Elem()), t: u.Elem()}
 	case *types.Array:
 		a := x.toTerm(b.v, bt)
 		i := ce.evalInt(e.Y)
 		tm := mkSelect(a, i)
 		ce.typed(u.Elem(), tm)
-		return cvar{x.fromTerm(tm, u.Elem()), u.Elem()}
+		return cvar{v: x.fromTerm(tm, u.Elem()), t: u.Elem()}
 	case *types.Map:
 		m := x.toTerm(b.v, bt)
 		k := ce.eval(e.Y)
-		_, _, vn, vs := x.env.te.mapHeaps(u)
+		_, _, vn, vs := x.env.te.mapHeaps(u, ce.region(b, e.X))
 		tm := mkSelect(mkSelect(ce.st.H(vn, vs), m), x.toTerm(k.v, u.Key()))
 		ce.typed(u.Elem(), tm)
-		return cvar{x.fromTerm(tm, u.Elem()), u.Elem()}
+		return cvar{v: x.fromTerm(tm, u.Elem()), t: u.Elem()}
 	}
 	// ghost arrays: Array Int X terms
 	if tm, ok := b.v.(*Term); ok && tm.Sort.Kind == SArray {
@@ -580,7 +588,7 @@ func (ce *cenv) evalIndex(e *CExpr) cvar {
 		if m, ok := bt.(*types.Map); ok {
 			et = m.Elem()
 		}
-		return cvar{mkSelect(tm, x.toTerm(i.v, i.t)), et}
+		return cvar{v: mkSelect(tm, x.toTerm(i.v, i.t)), t: et}
 	}
 	ce.fail("index of %s (type %v)", e.X, b.t)
 	return cvar{}
@@ -706,20 +714,21 @@ func (ce *cenv) evalCall(e *CExpr) cvar {
 		case *types.Slice:
 			s := x.toTerm(v.v, vt)
 			if e.Name == "len" {
-				return cvar{sliceLen(s), mathInt}
+				return cvar{v: sliceLen(s), t: mathInt}
 			}
-			return cvar{sliceCap(s), mathInt}
+			return cvar{v: sliceCap(s), t: mathInt}
 		case *types.Array:
-			return cvar{mkInt(u.Len()), mathInt}
+			return cvar{v: mkInt(u.Len()), t: mathInt}
 		case *types.Basic:
-			return cvar{strLen(x.toTerm(v.v, vt)), mathInt}
+			return cvar{v: strLen(x.toTerm(v.v, vt)), t: mathInt}
 		case *types.Map:
 			m := x.toTerm(v.v, vt)
-			return cvar{mkSelect(ce.st.H("ML:"+x.env.te.typeStr(u), arraySort(sortInt, sortInt)), m), mathInt}
+			ln, ls := x.env.te.mapLenHeap(u, ce.region(v, e.Args[0]))
+			return cvar{v: mkSelect(ce.st.H(ln, ls), m), t: mathInt}
 		case *types.Chan:
 			ch := x.toTerm(v.v, vt)
 			if e.Name == "cap" {
-				return cvar{mkApp("chan.cap", sortInt, ch), mathInt}
+				return cvar{v: mkApp("chan.cap", sortInt, ch), t: mathInt}
 			}
 		}
 		ce.fail("%s of %s", e.Name, e.Args[0])
@@ -733,84 +742,84 @@ func (ce *cenv) evalCall(e *CExpr) cvar {
 				cur = mkMax(cur, o)
 			}
 		}
-		return cvar{cur, mathInt}
+		return cvar{v: cur, t: mathInt}
 	case "int", "int64", "uint64", "uint":
 		argn(1)
 		v := ce.evalInt(e.Args[0])
 		if e.Name == "uint64" || e.Name == "uint" {
-			return cvar{wrapInt(v, 64, false), types.Typ[types.Uint64]}
+			return cvar{v: wrapInt(v, 64, false), t: types.Typ[types.Uint64]}
 		}
-		return cvar{v, mathInt}
+		return cvar{v: v, t: mathInt}
 	case "uint32":
 		argn(1)
-		return cvar{wrapInt(ce.evalInt(e.Args[0]), 32, false), types.Typ[types.Uint32]}
+		return cvar{v: wrapInt(ce.evalInt(e.Args[0]), 32, false), t: types.Typ[types.Uint32]}
 	case "uint16":
 		argn(1)
-		return cvar{wrapInt(ce.evalInt(e.Args[0]), 16, false), types.Typ[types.Uint16]}
+		return cvar{v: wrapInt(ce.evalInt(e.Args[0]), 16, false), t: types.Typ[types.Uint16]}
 	case "uint8", "byte":
 		argn(1)
-		return cvar{wrapInt(ce.evalInt(e.Args[0]), 8, false), types.Typ[types.Uint8]}
+		return cvar{v: wrapInt(ce.evalInt(e.Args[0]), 8, false), t: types.Typ[types.Uint8]}
 	case "int32":
 		argn(1)
-		return cvar{wrapInt(ce.evalInt(e.Args[0]), 32, true), types.Typ[types.Int32]}
+		return cvar{v: wrapInt(ce.evalInt(e.Args[0]), 32, true), t: types.Typ[types.Int32]}
 	case "int16":
 		argn(1)
-		return cvar{wrapInt(ce.evalInt(e.Args[0]), 16, true), types.Typ[types.Int16]}
+		return cvar{v: wrapInt(ce.evalInt(e.Args[0]), 16, true), t: types.Typ[types.Int16]}
 	case "int8":
 		argn(1)
-		return cvar{wrapInt(ce.evalInt(e.Args[0]), 8, true), types.Typ[types.Int8]}
+		return cvar{v: wrapInt(ce.evalInt(e.Args[0]), 8, true), t: types.Typ[types.Int8]}
 	case "addu32", "subu32":
 		// wrap-around sum/difference of two values already in [0, 2^32)
 		argn(2)
 		a, b := ce.evalInt(e.Args[0]), ce.evalInt(e.Args[1])
 		if e.Name == "addu32" {
-			return cvar{wrapSum(mkAdd(a, b), 32, false), types.Typ[types.Uint32]}
+			return cvar{v: wrapSum(mkAdd(a, b), 32, false), t: types.Typ[types.Uint32]}
 		}
-		return cvar{wrapSum(mkSub(a, b), 32, false), types.Typ[types.Uint32]}
+		return cvar{v: wrapSum(mkSub(a, b), 32, false), t: types.Typ[types.Uint32]}
 	case "s32":
 		// reinterpret a value in [0, 2^32) as int32
 		argn(1)
 		a := ce.evalInt(e.Args[0])
-		return cvar{mkIte(mkLe(mkBig(pow2(31)), a), mkSub(a, mkBig(pow2(32))), a), types.Typ[types.Int32]}
+		return cvar{v: mkIte(mkLe(mkBig(pow2(31)), a), mkSub(a, mkBig(pow2(32))), a), t: types.Typ[types.Int32]}
 	case "iszero":
 		argn(1)
 		v := ce.eval(e.Args[0])
 		if v.t == nil {
 			ce.fail("iszero of untyped value")
 		}
-		return cvar{mkEq(x.toTerm(v.v, v.t), x.env.te.zero(v.t)), boolT}
+		return cvar{v: mkEq(x.toTerm(v.v, v.t), x.env.te.zero(v.t)), t: boolT}
 	case "fresh":
 		argn(1)
 		v := ce.eval(e.Args[0])
 		r := ce.refOf(v)
-		return cvar{mkLt(ce.old.H("$alloc", sortInt), r), boolT}
+		return cvar{v: mkLt(ce.old.H("$alloc", sortInt), r), t: boolT}
 	case "allocated":
 		argn(1)
 		v := ce.eval(e.Args[0])
 		r := ce.refOf(v)
-		return cvar{mkAnd(mkLt(mkInt(0), r), mkLe(r, ce.st.H("$alloc", sortInt))), boolT}
+		return cvar{v: mkAnd(mkLt(mkInt(0), r), mkLe(r, ce.st.H("$alloc", sortInt))), t: boolT}
 	case "ref":
 		argn(1)
-		return cvar{ce.refOf(ce.eval(e.Args[0])), mathInt}
+		return cvar{v: ce.refOf(ce.eval(e.Args[0])), t: mathInt}
 	case "off":
 		argn(1)
 		v := ce.eval(e.Args[0])
-		return cvar{sliceOff(x.toTerm(v.v, v.t)), mathInt}
+		return cvar{v: sliceOff(x.toTerm(v.v, v.t)), t: mathInt}
 	case "objlen":
 		argn(1)
-		return cvar{objlen(ce.refOf(ce.eval(e.Args[0]))), mathInt}
+		return cvar{v: objlen(ce.refOf(ce.eval(e.Args[0]))), t: mathInt}
 	case "sameSlice":
 		argn(2)
 		a, b := ce.eval(e.Args[0]), ce.eval(e.Args[1])
 		sa, sb := x.toTerm(a.v, a.t), x.toTerm(b.v, b.t)
-		return cvar{mkAnd(mkEq(sliceRef(sa), sliceRef(sb)), mkEq(sliceOff(sa), sliceOff(sb))), boolT}
+		return cvar{v: mkAnd(mkEq(sliceRef(sa), sliceRef(sb)), mkEq(sliceOff(sa), sliceOff(sb))), t: boolT}
 	case "disjoint":
 		argn(2)
 		a, b := ce.eval(e.Args[0]), ce.eval(e.Args[1])
 		sa, sb := x.toTerm(a.v, a.t), x.toTerm(b.v, b.t)
-		return cvar{mkOr(mkNot(mkEq(sliceRef(sa), sliceRef(sb))),
+		return cvar{v: mkOr(mkNot(mkEq(sliceRef(sa), sliceRef(sb))),
 			mkLe(mkAdd(sliceOff(sa), sliceLen(sa)), sliceOff(sb)),
-			mkLe(mkAdd(sliceOff(sb), sliceLen(sb)), sliceOff(sa))), boolT}
+			mkLe(mkAdd(sliceOff(sb), sliceLen(sb)), sliceOff(sa))), t: boolT}
 	case "in":
 		argn(2)
 		m := ce.eval(e.Args[0])
@@ -819,14 +828,14 @@ func (ce *cenv) evalCall(e *CExpr) cvar {
 			ce.fail("in(): not a map")
 		}
 		k := ce.eval(e.Args[1])
-		dn, ds, _, _ := x.env.te.mapHeaps(mt)
-		return cvar{mkSelect(mkSelect(ce.st.H(dn, ds), x.toTerm(m.v, m.t)), x.toTerm(k.v, mt.Key())), boolT}
+		dn, ds, _, _ := x.env.te.mapHeaps(mt, ce.region(m, e.Args[0]))
+		return cvar{v: mkSelect(mkSelect(ce.st.H(dn, ds), x.toTerm(m.v, m.t)), x.toTerm(k.v, mt.Key())), t: boolT}
 	case "cb_ref", "cb_idx":
 		argn(1)
-		return cvar{mkSelect(ce.st.H("ghost:"+e.Name, arraySort(sortInt, sortInt)), ce.evalInt(e.Args[0])), mathInt}
+		return cvar{v: mkSelect(ce.st.H("ghost:"+e.Name, arraySort(sortInt, sortInt)), ce.evalInt(e.Args[0])), t: mathInt}
 	case "cb_ret":
 		argn(1)
-		return cvar{mkSelect(ce.st.H("ghost:cb_ret", arraySort(sortInt, sortBool)), ce.evalInt(e.Args[0])), boolT}
+		return cvar{v: mkSelect(ce.st.H("ghost:cb_ret", arraySort(sortInt, sortBool)), ce.evalInt(e.Args[0])), t: boolT}
 	case "held":
 		argn(1)
 		p := ce.addrOf(e.Args[0])
@@ -834,7 +843,7 @@ func (ce *cenv) evalCall(e *CExpr) cvar {
 			ce.fail("held(): not a mutex location")
 		}
 		k, ref := x.lockKey(p)
-		return cvar{mkSelect(ce.st.H(k, arraySort(sortInt, sortBool)), ref), boolT}
+		return cvar{v: mkSelect(ce.st.H(k, arraySort(sortInt, sortBool)), ref), t: boolT}
 	case "typeis":
 		// typeis(x, "TypeName"): dynamic type of interface x
 		argn(2)
@@ -847,7 +856,7 @@ func (ce *cenv) evalCall(e *CExpr) cvar {
 			tn = tn[4:]
 		}
 		if tn == "bytes" {
-			return cvar{x.typeTest(iv, types.NewSlice(types.Typ[types.Uint8])), boolT}
+			return cvar{v: x.typeTest(iv, types.NewSlice(types.Typ[types.Uint8])), t: boolT}
 		}
 		obj := x.env.pkg.Types.Scope().Lookup(tn)
 		if obj == nil {
@@ -857,7 +866,7 @@ func (ce *cenv) evalCall(e *CExpr) cvar {
 		if ptr {
 			t = types.NewPointer(t)
 		}
-		return cvar{x.typeTest(iv, t), boolT}
+		return cvar{v: x.typeTest(iv, t), t: boolT}
 	case "unboxbytes":
 		argn(1)
 		v := ce.eval(e.Args[0])
@@ -865,7 +874,7 @@ func (ce *cenv) evalCall(e *CExpr) cvar {
 		bt := types.NewSlice(types.Typ[types.Uint8])
 		tm := x.unbox(iv, bt).(*Term)
 		ce.typed(bt, tm)
-		return cvar{tm, bt}
+		return cvar{v: tm, t: bt}
 	case "unboxptr":
 		// unboxptr(x, TypeName): pointer stored in interface x
 		argn(2)
@@ -876,7 +885,7 @@ func (ce *cenv) evalCall(e *CExpr) cvar {
 			ce.fail("unboxptr: unknown type %s", e.Args[1].Name)
 		}
 		t := types.NewPointer(obj.Type())
-		return cvar{x.unbox(iv, t), t}
+		return cvar{v: x.unbox(iv, t), t: t}
 	case "unboxval":
 		// unboxval(x, TypeName): value of a package type stored in interface x
 		argn(2)
@@ -890,7 +899,7 @@ func (ce *cenv) evalCall(e *CExpr) cvar {
 		if tm, ok := uv.(*Term); ok {
 			ce.typed(obj.Type(), tm)
 		}
-		return cvar{uv, obj.Type()}
+		return cvar{v: uv, t: obj.Type()}
 	case "uf":
 		// uf(name, args...) : uninterpreted integer function
 		if len(e.Args) < 1 {
@@ -901,14 +910,14 @@ func (ce *cenv) evalCall(e *CExpr) cvar {
 			v := ce.eval(a)
 			as = append(as, x.toTerm(v.v, v.t))
 		}
-		return cvar{mkApp("uf:"+e.Args[0].Name, sortInt, as...), mathInt}
+		return cvar{v: mkApp("uf:"+e.Args[0].Name, sortInt, as...), t: mathInt}
 	case "ufb":
 		var as []*Term
 		for _, a := range e.Args[1:] {
 			v := ce.eval(a)
 			as = append(as, x.toTerm(v.v, v.t))
 		}
-		return cvar{mkApp("ufb:"+e.Args[0].Name, sortBool, as...), boolT}
+		return cvar{v: mkApp("ufb:"+e.Args[0].Name, sortBool, as...), t: boolT}
 	}
 	if sd := x.env.con.Specs[e.Name]; sd != nil {
 		if len(e.Args) != len(sd.Params) {
@@ -952,11 +961,21 @@ func (ce *cenv) modFacts(a, b *Term) {
 	}
 }
 
+func (ce *cenv) region(v cvar, e *CExpr) string {
+	if v.origin == "" {
+		ce.fail("map expression %s is not a direct field access (map region discipline)", e)
+	}
+	return v.origin
+}
+
 func (ce *cenv) refOf(v cvar) *Term {
 	switch p := v.v.(type) {
 	case *PtrVal:
 		if p.Base == PObj || p.Base == PElem {
-			return p.Ref
+			return mkIte(p.Nilc, mkInt(0), p.Ref)
+		}
+		if p.Base == PNil {
+			return mkInt(0)
 		}
 	case *Term:
 		if p.Sort == sortSlice {
